@@ -88,3 +88,14 @@ META["C07"] = M(
          "of 1, x every (log_alg, trace_alg) pair with a deterministic trace (omitted, Auto, Cholesky, LU, Lanczos/Arnoldi with "
          "max_iters >= n and exact trace); slogdet/logdet compared with numpy.linalg.slogdet of the reference matrix; "
          "distinct = structure + algorithm pair")
+
+META["C08"] = M(
+    shards={"quick": 16, "thorough": 64}, budget={"quick": 45, "thorough": 800},
+    floors={"quick": {"evals": 4000, "distinct": 1500}, "thorough": {"evals": 150000, "distinct": 50000}},
+    required=["diag", "trace", "structural-vs-generic"],
+    rule="square operator trees over Dense, Identity, Diagonal, ScalarMul, Sum, BlockDiag with multiplicities, Kronecker/KronSum, "
+         "products, Tridiagonal, Triangular, Sparse, generic and no_dispatch operators; all offsets k in (-n, n) for n <= 12 and "
+         "a spread incl. +-99/100/101 for n in {99,100,101,150,199,200,201,230}; alg Exact / Auto (default tol) / omitted; "
+         "diag(A,k) and trace(A) compared with the reference; the rule selected for the top call is observed through the "
+         "dispatch tap: a structural rule may refuse (counted), the generic probing may not; structural answers are also "
+         "compared with the generic probing of the same operator; distinct = structure + k + alg")
